@@ -58,6 +58,8 @@ type nodeConn struct {
 	hdrReplies []*wire.MsgHeaders   // headers messages the service sent (answers to the node's getheaders)
 	openedAt  int
 	handshakeDoneStep int
+	wantsHeaders bool
+	deferred []wire.Message
 	known *MHeader // highest header of the node's chain the service is known to have (per connection)
 	connFlags
 }
